@@ -137,6 +137,11 @@ inductive HistEdit where
   /-- drop the k newest / oldest update proofs and regenerate the marker proofs for the new range -/
   | dropNewest (k : Nat) | dropOldest (k : Nat)
   | gap (i : Nat) | dup (i : Nat) | swapUpd (i j : Nat)
+  /-- update i overwritten by a copy of update j (a hidden version behind a duplicate: the count stays the same) -/
+  | copyUpd (i j : Nat)
+  /-- the general re-arrangement: the update list becomes `[updates[i] | i ← idx]` (any selection with repetition, in
+  any order; marker proofs untouched) — likewise for the past / future marker lists -/
+  | selUpd (idx : List Nat) | selPast (idx : List Nat) | selFuture (idx : List Nat)
   | value (i : Nat) (v : Bytes) | epoch (i : Nat) (e : Nat) | tomb (i : Nat) | noPrev (i : Nat)
   | pastDrop (i : Nat) | futureDrop (i : Nat)
   /-- forged absence: future marker i "proved" absent at the k-th ancestor of its label -/
@@ -156,6 +161,10 @@ def parseHistEdit? (tok : String) : Option HistEdit :=
   | ["gap", i] => i.toNat?.map .gap
   | ["dup", i] => i.toNat?.map .dup
   | ["swapupd", i, j] => do pure (.swapUpd (← i.toNat?) (← j.toNat?))
+  | ["copy", i, j] => do pure (.copyUpd (← i.toNat?) (← j.toNat?))
+  | ["sel", is] => (((is.splitOn ",").filter (· ≠ "")).mapM String.toNat?).map .selUpd
+  | ["pastsel", is] => (((is.splitOn ",").filter (· ≠ "")).mapM String.toNat?).map .selPast
+  | ["futuresel", is] => (((is.splitOn ",").filter (· ≠ "")).mapM String.toNat?).map .selFuture
   | ["value", i, v] => do pure (.value (← i.toNat?) (← parseHex? v))
   | ["epoch", i, e] => do pure (.epoch (← i.toNat?) (← e.toNat?))
   | ["tomb", i] => i.toNat?.map .tomb
@@ -198,6 +207,12 @@ def applyHist (c : Cfg) (d : Dir) (u : Bytes) (p : HistoryProof) : HistEdit → 
   | .swapUpd i j => match p.updates[i]?, p.updates[j]? with
     | some a, some b => .ok { p with updates := Adv.modifyAt (Adv.modifyAt p.updates i fun _ => b) j fun _ => a }
     | _, _ => .ok p
+  | .selUpd idx => .ok { p with updates := idx.filterMap (p.updates[·]?) }
+  | .selPast idx => .ok { p with past := idx.filterMap (p.past[·]?), pastVrf := idx.filterMap (p.pastVrf[·]?) }
+  | .selFuture idx => .ok { p with future := idx.filterMap (p.future[·]?), futureVrf := idx.filterMap (p.futureVrf[·]?) }
+  | .copyUpd i j => match p.updates[j]? with
+    | some b => .ok { p with updates := Adv.modifyAt p.updates i fun _ => b }
+    | none => .ok p
   | .value i v => .ok { p with updates := Adv.modifyAt p.updates i fun x => { x with value := v } }
   | .epoch i e => .ok { p with updates := Adv.modifyAt p.updates i fun x => { x with epoch := e } }
   | .tomb i => .ok { p with updates := Adv.modifyAt p.updates i fun x => { x with value := [] } }
